@@ -297,6 +297,27 @@ def _unwrap(it, cal, args):
     raise RustPanic(f"called `{v.name}::unwrap()` on a `{v.variant}` value", cal.raw[:60])
 
 
+@model("<Option as Default>::default")
+def _opt_default(it, cal, args):
+    return none()
+
+
+@model("Option::unwrap_or_default")
+def _opt_unwrap_or_default(it, cal, args):
+    v = args[0]
+    if v.variant == "Some":
+        return v.fields[0]
+    if "Vec<" in cal.raw or cal.raw.startswith("Option::<Vec"):
+        return Agg("Vec", [])
+    raise Unsupported(f"unwrap_or_default of None for {cal.raw}")
+
+
+@model("Option::unwrap_or_else")
+def _opt_unwrap_or_else(it, cal, args):
+    v = args[0]
+    return v.fields[0] if v.variant == "Some" else _callf(it, args[1], [])
+
+
 @model("Option::is_some")
 def _is_some(it, cal, args):
     return B(deref_all(it, args[0]).variant == "Some")
@@ -675,16 +696,27 @@ def _int_models():
                 p <<= 1
             return I(p, args[0].ty)
 
-        def tz(it, cal, args):
+        def tz(it, cal, args, ones=False):
             c = args[0].concrete()
-            if c is None:
-                raise Unsupported("trailing_zeros of symbolic value")
             w = args[0].width
+            if c is None:
+                # symbolic: nested if-then-else over the bit positions
+                x = args[0].v
+                r = z3.BitVecVal(w, 32)
+                for n in range(w - 1, -1, -1):
+                    bit = z3.Extract(n, n, x) == (0 if ones else 1)
+                    r = z3.If(bit, z3.BitVecVal(n, 32), r)
+                return I(r, "u32")
             c &= (1 << w) - 1
+            if ones:
+                c = ~c & ((1 << w) - 1)
             n = 0
             while n < w and not (c >> n) & 1:
                 n += 1
             return I(n, "u32")
+
+        def to(it, cal, args):
+            return tz(it, cal, args, ones=True)
 
         def lz(it, cal, args):
             c = args[0].concrete()
@@ -724,14 +756,34 @@ def _int_models():
         TABLE[pre + "checked_sub"] = csub
         TABLE[pre + "next_power_of_two"] = npot
         TABLE[pre + "trailing_zeros"] = tz
+        TABLE[pre + "trailing_ones"] = to
         TABLE[pre + "leading_zeros"] = lz
         TABLE[pre + "is_power_of_two"] = ipot
         TABLE[pre + "saturating_sub"] = sat_sub
+        TABLE[f"<{ty} as Ord>::clamp"] = lambda it, cal, args: imin(it, cal, [imax(it, cal, [args[0], args[1]]), args[2]])
         TABLE[f"<{ty} as Ord>::min"] = imin
         TABLE[f"<{ty} as Ord>::max"] = imax
         TABLE[f"std::cmp::min::<{ty}>"] = imin
         TABLE[f"<{ty} as Clone>::clone"] = lambda it, cal, args: it.load(args[0])
         TABLE[f"<{ty} as From>::from"] = lambda it, cal, args: args[0]
+
+        def tryfrom(it, cal, args, ty=ty):
+            # checked integer conversion: Ok iff the value is representable in the target type
+            v = args[0]
+            w, sg = INT_TYPES[ty]
+            lo, hi = (-(1 << (w - 1)), (1 << (w - 1)) - 1) if sg else (0, (1 << w) - 1)
+            c = v.concrete()
+            if c is not None:
+                fits = lo <= c <= hi
+            else:
+                big = max(v.width, w) + 1
+                x = z3.SignExt(big - v.width, v.v) if v.signed else z3.ZeroExt(big - v.width, v.v)
+                fits = it.branch(z3.And(x >= lo, x <= hi), "try_from")
+            if fits:
+                return ok(I(c, ty) if c is not None else I(z3.Extract(w - 1, 0, v.v) if w < v.width else
+                                                          (z3.SignExt(w - v.width, v.v) if v.signed else z3.ZeroExt(w - v.width, v.v)) if w > v.width else v.v, ty))
+            return err(Agg("TryFromIntError", [unit()]))
+        TABLE[f"<{ty} as TryFrom>::try_from"] = tryfrom
 
 
 _int_models()
@@ -863,6 +915,27 @@ def _vec_clone(it, cal, args):
     return Agg("Vec", out)
 
 
+@model("Vec::resize_with")
+def _vec_resize_with(it, cal, args):
+    v = it.load(args[0])
+    n = it.concretize(args[1], "resize_with len")
+    while len(v.fields) > n:
+        it.drop_value(v.fields.pop())
+    while len(v.fields) < n:
+        v.fields.append(_callf(it, args[2], []))
+    return unit()
+
+
+@model("Vec::try_reserve", "Vec::reserve", "Vec::shrink_to_fit")
+def _vec_try_reserve(it, cal, args):
+    return ok(unit()) if cal.method == "try_reserve" else unit()
+
+
+@model("Vec::capacity")
+def _vec_capacity(it, cal, args):
+    return I(max(len(it.load(args[0]).fields), 4), "usize")
+
+
 @model("<String as Clone>::clone")
 def _string_clone(it, cal, args):
     return it.load(args[0])
@@ -948,9 +1021,76 @@ def _range_next(it, cal, args):
     return none()
 
 
-@model("<Range as IntoIterator>::into_iter", "<SliceIter as IntoIterator>::into_iter", "<VecIntoIter as IntoIterator>::into_iter")
+@model("<Range as IntoIterator>::into_iter", "<SliceIter as IntoIterator>::into_iter", "<VecIntoIter as IntoIterator>::into_iter",
+       "<MapIter as IntoIterator>::into_iter", "<TakeIter as IntoIterator>::into_iter")
 def _ident_iter(it, cal, args):
     return args[0]
+
+
+# lazy adaptors (std's Map / Take): the inner iterator is advanced through the dispatcher, so any modelled iterator works
+@model("<VecIntoIter as Iterator>::map", "<IntoIter as Iterator>::map", "<SliceIter as Iterator>::map", "<IterMut as Iterator>::map",
+       "<Iter as Iterator>::map", "<TakeIter as Iterator>::map", "<Take as Iterator>::map", "<MapIter as Iterator>::map")
+def _iter_map(it, cal, args):
+    return Agg("MapIter", [args[0], args[1]])
+
+
+@model("<VecIntoIter as Iterator>::take", "<IntoIter as Iterator>::take", "<SliceIter as Iterator>::take", "<IterMut as Iterator>::take",
+       "<Iter as Iterator>::take", "<MapIter as Iterator>::take")
+def _iter_take(it, cal, args):
+    return Agg("TakeIter", [args[0], args[1]])
+
+
+@model("<MapIter as Iterator>::next", "<Map as Iterator>::next")
+def _map_next(it, cal, args):
+    p = it.deref(args[0])
+    r = it.call("<I as Iterator>::next", [Ptr(p.cell, p.path + (("f", 0),), "ref")])
+    if r.variant != "Some":
+        return none()
+    return some(it.call_closure(Ptr(p.cell, p.path + (("f", 1),), "ref"), Agg("tuple", [r.fields[0]])))
+
+
+@model("<TakeIter as Iterator>::next", "<Take as Iterator>::next")
+def _take_next(it, cal, args):
+    p = it.deref(args[0])
+    s = it.read_loc(p.cell, p.path)
+    n = it.concretize(s.fields[1], "take count")
+    if n <= 0:
+        return none()
+    s.fields[1] = I(n - 1, "usize")
+    return it.call("<I as Iterator>::next", [Ptr(p.cell, p.path + (("f", 0),), "ref")])
+
+
+@model("<MapIter as Iterator>::collect", "<Map as Iterator>::collect", "<VecIntoIter as Iterator>::collect", "<TakeIter as Iterator>::collect")
+def _iter_collect(it, cal, args):
+    if "Vec<" not in cal.raw and "::<Vec" not in cal.raw:
+        raise Unsupported(f"collect into a non-Vec: {cal.raw}")
+    holder = Cell(args[0], tag="collect")
+    out = []
+    for _ in range(256):
+        r = it.call("<I as Iterator>::next", [Ptr(holder, (), "ref")])
+        if r.variant != "Some":
+            return Agg("Vec", out)
+        out.append(r.fields[0])
+    raise Unsupported("collect: more than 256 items")
+
+
+def _iter_remaining(it, s):
+    if s.name == "VecIntoIter":
+        return len(s.fields[0].fields) - s.fields[1].concrete()
+    if s.name == "SliceIter":
+        base = s.fields[0]
+        return len(it.read_loc(base.cell, base.path).fields) - s.fields[1].concrete()
+    if s.name == "TakeIter":
+        return min(it.concretize(s.fields[1], "take count"), _iter_remaining(it, s.fields[0]))
+    if s.name == "MapIter":
+        return _iter_remaining(it, s.fields[0])
+    raise Unsupported(f"length of iterator {s.name}")
+
+
+@model("<VecIntoIter as ExactSizeIterator>::len", "<IntoIter as ExactSizeIterator>::len", "<SliceIter as ExactSizeIterator>::len",
+       "<IterMut as ExactSizeIterator>::len", "<Iter as ExactSizeIterator>::len")
+def _iter_len(it, cal, args):
+    return I(_iter_remaining(it, it.load(args[0])), "usize")
 
 
 # ----------------------------------------------------------------------------------------- BinaryHeap (specification: a max-heap w.r.t. PartialOrd of the element)
